@@ -111,6 +111,13 @@ def goalF : Nat → Bool → List (Nat × Term) → P G
         | some (gs, ts) => some (Goal.onceo gs, ts)
         | none => none
       | none => none
+    else if t == "onceoc" && !dfs then
+      -- `onceo { c1, c2, .. }`: `Conj::from_conjunctions` over the comma-separated entries, then `condu { g }`
+      match nat ts with
+      | some (k, ts) => match clausesF n false env k ts with
+        | some (cs, ts) => some (Goal.onceo (cs.map Goal.conjOfList), ts)
+        | none => none
+      | none => none
     else if t == "dfs" then
       match nat ts with
       | some (k, ts) => match goalsF n true env k ts with
